@@ -453,3 +453,66 @@ def proof_stage(ctx, extra_targets=(), gen=None):
         axs = sorted({a for l in props["assumptions"].values() for a in l})
         ctx.coverage["axioms_used"] = axs
     return res
+
+
+# ---------------------------------------------------------------------------
+# Deployed stock workspace (luna_pinyin + cangjie5 from /repo/data/minimal), cached
+# ---------------------------------------------------------------------------
+
+def _hash_files(paths):
+    h = hashlib.sha256()
+    for p in sorted(paths):
+        h.update(p.encode())
+        with open(p, "rb") as f:
+            while True:
+                b = f.read(1 << 20)
+                if not b:
+                    break
+                h.update(b)
+    return h.hexdigest()
+
+
+def stock_workspace(flavour="asan", extra_shared=None, name="stock"):
+    """Return a TEMPLATE directory holding `shared/` (copy of /repo/data/minimal plus
+    the files of extra_shared: {filename: content}) and `user/` (with build/ deployed
+    by the rime_deployer of the given librime flavour).  The template is cached under
+    CACHE/ws/ keyed by the content hash of librime.so + rime_deployer + all source data
+    files, so it is redeployed whenever /repo's code or data changed.  Copy it
+    (`copy_workspace`) before use; never run a session inside the template.
+    Deploying under ASan takes ~40 s; a cache hit costs < 1 s."""
+    b = librime_build(flavour)
+    data = os.path.join(REPO, "data", "minimal")
+    files = [os.path.join(data, f) for f in os.listdir(data)]
+    key = _hash_files(files + [os.path.realpath(os.path.join(b, "lib", "librime.so")), os.path.join(b, "bin", "rime_deployer")])
+    if extra_shared:
+        key = hashlib.sha256((key + json.dumps(extra_shared, sort_keys=True)).encode()).hexdigest()
+    root = os.path.join(CACHE, "ws")
+    os.makedirs(root, exist_ok=True)
+    d = os.path.join(root, "%s-%s-%s" % (name, flavour, key[:20]))
+    with Lock(os.path.join(root, ".%s.lock" % name)):
+        if os.path.exists(os.path.join(d, ".ok")):
+            return d
+        shutil.rmtree(d, ignore_errors=True)
+        # drop older templates of the same name/flavour
+        for old in os.listdir(root):
+            if old.startswith("%s-%s-" % (name, flavour)):
+                shutil.rmtree(os.path.join(root, old), ignore_errors=True)
+        os.makedirs(os.path.join(d, "user"))
+        shutil.copytree(data, os.path.join(d, "shared"))
+        for fn, content in (extra_shared or {}).items():
+            with open(os.path.join(d, "shared", fn), "w") as f:
+                f.write(content)
+        rc, out = sh([os.path.join(b, "bin", "rime_deployer"), "--build", os.path.join(d, "user"),
+                      os.path.join(d, "shared"), os.path.join(d, "user", "build")],
+                     env={"ASAN_OPTIONS": "detect_leaks=0", "TSAN_OPTIONS": "report_bugs=0"}, timeout=900)
+        if rc != 0:
+            raise BuildError("deploying the stock workspace failed (rc=%d):\n%s" % (rc, out[-4000:]))
+        open(os.path.join(d, ".ok"), "w").write(key)
+    return d
+
+
+def copy_workspace(template, dest):
+    """Private copy of a workspace template (shared/ + user/) for one run/history."""
+    shutil.rmtree(dest, ignore_errors=True)
+    shutil.copytree(template, dest)
+    return dest
